@@ -99,13 +99,14 @@ Process(s, m) ==
           ELSE IF GEnc(s.ps.grp, d.e) = s.out THEN Err("ReflectionThwarted")
           ELSE Key(KeyFor(s, body, GEnc(s.ps.grp, KElem(s.cls, s.ps, s.pw, s.x, d.e))))
 
-(* finish(m): after a key was returned every further call raises           *)
-(* OnlyCallFinishOnce (C07).  After a finish() that RAISED the properties   *)
-(* do not say whether a retry is processed or refused: both are allowed     *)
-(* (the pinned code refuses).                                               *)
+(* finish(m) is single-use (C07): the first call is processed - whether it   *)
+(* returns a key or raises - and EVERY further call raises                  *)
+(* OnlyCallFinishOnce.  (The property anchors the mechanism: the flag is    *)
+(* set before the inbound message is parsed.  An earlier, more permissive   *)
+(* reading - a retry after a finish() that raised may be processed - let a  *)
+(* seeded change through that re-armed finish() after a rejected reflection.)*)
 FinishOutcomes(s, m) ==
-  IF s.gaveKey THEN {Err("OnlyCallFinishOnce")}
-  ELSE IF s.finished THEN {Err("OnlyCallFinishOnce"), Process(s, m)}
+  IF s.finished THEN {Err("OnlyCallFinishOnce")}
   ELSE {Process(s, m)}
 FinishNext(s, o) ==
   IF o = Err("OnlyCallFinishOnce") THEN s
